@@ -383,6 +383,29 @@ Definition finish_tsig (message : bytes) (mode : tsig_mode) (rr : prepared)
     let* rdata := unsigned rr algorithm in Ok (rdata, None)
   end.
 
+(* Writer::set_edns / set_extended_rcode state kept until finish: `struct Edns` *)
+Record edns := mkEdns { e_udp_payload_size : N; e_extended_rcode_upper_bits : N }.
+
+(* the OPT RR finish_with_mac appends through add_rr: root owner (written uncompressed: wire length 1),
+   TYPE OPT, CLASS = UDP payload size, TTL = extended_rcode_upper_bits << 24 (written as is), no RDATA *)
+Definition opt_rr (e : edns) : bytes :=
+  [0%N] ++ be16 TYPE_OPT ++ be16 (e_udp_payload_size e)
+  ++ be32 (e_extended_rcode_upper_bits e * 16777216) ++ be16 0.
+
+(* finish_with_mac after the counts have been written: [body] is octets[0..cursor] at that point
+   (ARCOUNT already counts the OPT and TSIG RRs, set_edns / set_tsig incremented it).  First the OPT
+   RR is appended, THEN the TSIG branch signs octets[0..cursor], i.e. everything before the TSIG RR,
+   the OPT RR included.  Result: the message before the TSIG RR, and the TSIG RDATA / MAC if any. *)
+Definition finish_tail (body : bytes) (e : option edns) (tsig : option (tsig_mode * prepared))
+  : res verr (bytes * option (bytes * option bytes)) :=
+  let message := match e with Some e' => body ++ opt_rr e' | None => body end in
+  match tsig with
+  | None => Ok (message, None)
+  | Some (mode, rr) =>
+    let* (rdata, mac) := finish_tsig message mode rr in
+    Ok (message, Some (rdata, mac))
+  end.
+
 (* the TSIG RR that finish_with_mac appends when the owner is written uncompressed
    (the Writer may replace a suffix of the owner by a compression pointer) *)
 Definition tsig_rr_uncompressed (rr : prepared) (rdata : bytes) : bytes :=
